@@ -544,10 +544,22 @@ def eval_shards(items, ctype, fns, tag, per=150, header=None):
     shards = []
     for s in range(0, len(items), per):
         body = "Definition cases : list %s := %s.\n" % (ctype, E.lst(["\n " + i for i in items[s:s + per]]))
-        for fn in fns:
-            body += "Eval vm_compute in (indices_where %s cases 0).\n" % fn
         shards.append(body)
+    return eval_bodies(shards, fns, tag, per, header)
+
+
+def eval_bodies(shards, fns, tag, per, header=None):
+    """shards: Coq texts each defining `cases` (per cases each); appends the Eval commands, runs them."""
+    shards = [b + "".join("Eval vm_compute in (indices_where %s cases 0).\n" % fn for fn in fns) for b in shards]
     res = core.eval_cases(shards, tag, header or HEADER)
+    # a coqc process killed from outside (out-of-memory killer on a loaded machine: non-zero exit, no Coq error
+    # message) says nothing about the cases: evaluate those shards again, one after the other
+    for attempt in range(2):
+        dead = [i for i, (rc, so, se) in enumerate(res) if rc != 0 and "Error" not in (so + se)]
+        if not dead:
+            break
+        for i in dead:
+            res[i] = core.eval_cases([shards[i]], tag + "r", header or HEADER)[0]
     out = {fn: [] for fn in fns}
     for si, (rc, so, se) in enumerate(res):
         vals = core.parse_eval(so)
@@ -1055,17 +1067,40 @@ def emit_fcase(env, sn, compact, obs):
         E.outcome(obs["reg"]))
 
 
+def fixed_fast_cases():
+    """single-field wrapper classes (the compact form applies on both paths) around a nested class, under every
+    mapper kind: the corner where the regular serializer does NOT push TO_CAMELCASE into the nested document"""
+    out = []
+    flt = {"t": "prim", "f": {"t": "num", "k": "Float", "s": "Any"}}
+    for mapper in (None, "camel", "upper", {"dict": [["the_e", ["str", "k0"]]]}):
+        for kind in ("ref", "array", "opt", "set"):
+            for compact in (True, False):
+                inner = {"name": fresh("In"), "fields": [{"name": "my_b", "ty": flt, "default": None}], "fast": True,
+                         "required": ["my_b"], "additional": None, "ignore_none": False, "mapper": None}
+                ref = {"t": "ref", "cls": inner["name"]}
+                ty = {"ref": ref, "array": {"t": "array", "item": ref}, "opt": {"t": "opt", "nf": False, "f": ref},
+                      "set": {"t": "set", "item": ref}}[kind]
+                outer = {"name": fresh("K"), "fields": [{"name": "the_e", "ty": ty, "default": None}], "fast": True,
+                         "required": ["the_e"], "additional": False, "ignore_none": False, "mapper": mapper}
+                out.append(([inner, outer], False, compact))
+    return out
+
+
 def stream_fast(rep, rnd, n, model_ok):
     items, cases, observed = [], [], []
     created = viol = 0
     tries = 0
-    while len(cases) < n and tries < 5 * n:
+    fixed = fixed_fast_cases()
+    while len(cases) < n + len(fixed) and tries < 5 * n:
         tries += 1
-        env = gen_env(rnd, fast=True, p_mapper=0.4)
+        if fixed:
+            env, sn, compact = fixed.pop()
+        else:
+            env = gen_env(rnd, fast=True, p_mapper=0.4)
+            sn = rnd.random() < 0.3
+            compact = rnd.random() < 0.3
         for c in env:          # extras are a documented limit of the fast path: none are generated
             c["default_ok"] = True
-        sn = rnd.random() < 0.3
-        compact = rnd.random() < 0.3
         try:
             obs = run_fast_case(rnd, env, sn, compact)
         except Exception as ex:  # noqa  declaration rejected
@@ -1137,7 +1172,7 @@ def run(rep, tier):
     stream_fast(rep, rnd, 300 if quick else 2500, model_ok)
     from harness import c10hist
     c10hist.stream_fast_hist(rep, rnd, 500 if quick else 5000, (4, 2, 350) if quick else (4, 3, 4000), model_ok, fresh,
-                             eval_shards)
+                             eval_bodies)
     if not proofs_ok:
         from harness.props.c17 import broken_build
         broken_build(rep)
